@@ -62,12 +62,16 @@ CidrM(p)   == [k |-> "cidr", fam |-> "v4", bits |-> p,  id |-> NoId, sp |-> "map
 \* such a request fails).  It names no client.
 BadId == "~bad"
 
-Pat(k, n)      == [k |-> k, n |-> n, qt |-> "", wl |-> FALSE]
-PatT(k, n, qt) == [k |-> k, n |-> n, qt |-> qt, wl |-> FALSE]
+Pat(k, n)      == [k |-> k, n |-> n, qt |-> "", wl |-> FALSE, fq |-> FALSE]
+PatT(k, n, qt) == [k |-> k, n |-> n, qt |-> qt, wl |-> FALSE, fq |-> FALSE]
+\* The same exact name / wildcard written fully qualified, with the final dot
+\* ("ads.com.", "*.ads.com."): a legal spelling of a domain name.  Like sp of
+\* a client entry, fq is read by NO operator.
+PatF(k, n)     == [k |-> k, n |-> n, qt |-> "", wl |-> FALSE, fq |-> TRUE]
 \* Exception rules ("@@" in the list's AdBlock-style syntax): the names they
 \* match are excepted from the list, not put on it.
-PatX(k, n)      == [k |-> k, n |-> n, qt |-> "", wl |-> TRUE]
-PatXT(k, n, qt) == [k |-> k, n |-> n, qt |-> qt, wl |-> TRUE]
+PatX(k, n)      == [k |-> k, n |-> n, qt |-> "", wl |-> TRUE, fq |-> FALSE]
+PatXT(k, n, qt) == [k |-> k, n |-> n, qt |-> qt, wl |-> TRUE, fq |-> FALSE]
 
 \* ----------------------------------------------------------------- addresses
 \* p is a prefix of the bit string b ("Contains" of section 3).
